@@ -112,8 +112,7 @@ Definition dump_check (cfg : config) (k : snapsel) (base : Z) (i : nat) (sp : sp
   okv i (negb (k_subs k) || bool_decide (d_subs d = spec_subs sp sid)) (base + 25) [zn sid] ++
   okv i (negb (k_acts k && cfg_vikja cfg) || bool_decide (d_actions d = spec_acts sp sid)) (base + 26) [zn sid] ++
   okv i (negb (k_assets k && cfg_odal cfg) || bool_decide (d_assets d = spec_assets sp sid)) (base + 27) [zn sid] ++
-  okv i (negb (k_reg k) || (bool_decide (Some (d_uuid d) = sp_uuid sp !! sid) &&
-                            (d_frames d =? N.of_nat (length (sp_members sp sid))))) (base + 28) [zn sid].
+  okv i (negb (k_reg k) || bool_decide (Some (d_uuid d) = sp_uuid sp !! sid)) (base + 28) [zn sid].
 
 Definition snap_check (cfg : config) (k : snapsel) (base : Z) (i : nat) (sp : spec) (e : event) : list violation :=
   match ev_op e with
@@ -290,7 +289,7 @@ Definition P_C07_event (cfg : config) (i : nat) (sp sp' : spec) (e : event) : li
 Definition P_C07 : pred := λ cfg t, sscan (P_C07_event cfg) 0 spec0 t.
 Definition dump_registry_only (d : sdump) : sdump :=
   {| d_sid := d_sid d; d_uuid := d_uuid d; d_parts := d_parts d; d_ents := []; d_types := []; d_comps := [];
-     d_subs := []; d_actions := []; d_assets := []; d_frames := d_frames d |}.
+     d_subs := []; d_actions := []; d_assets := []; d_frames := 0 |}.
 Definition is_join_req (e : event) : bool := match ev_req e with Some (RJoin _ _ _) => true | _ => false end.
 Definition is_snap_ev (e : event) : bool := match ev_op e with OSnap => true | _ => false end.
 Definition pi_C07 : proj :=
@@ -370,7 +369,7 @@ Definition P_C10_event (cfg : config) (i : nat) (sp sp' : spec) (e : event) : li
 Definition P_C10 : pred := λ cfg t, sscan (P_C10_event cfg) 0 spec0 t.
 Definition dump_ids_only (d : sdump) : sdump :=
   {| d_sid := d_sid d; d_uuid := d_uuid d; d_parts := d_parts d; d_ents := []; d_types := d_types d; d_comps := [];
-     d_subs := []; d_actions := []; d_assets := []; d_frames := d_frames d |}.
+     d_subs := []; d_actions := []; d_assets := []; d_frames := 0 |}.
 Definition pi_C10 : proj :=
   λ e, map_outs (λ m, match m with
                       | MSnap ss g q => MSnap (map dump_ids_only ss) g []
